@@ -98,10 +98,29 @@ def run(ctx):
                       'forced': '-', 'seed': rng.randrange(1, 2 ** 32), 'maxrep': 3, 'features': {'class-00-first': 1}, 'shared': comp})
     cases.append({'ids': [12001], 'version': 33, 'edition': 4, 'nsub': 2, 'compressed': True, 'forced': '-', 'seed': 32,
                   'maxrep': 3, 'features': {'witness-D32': 1}, 'shared': True})
+    # the same character element under two widths (208YYY then the Table B width, or the reverse), MISSING in both places:
+    # each field is all ones over its own width
+    for k in range(ctx.n(8, 80)):
+        st = [1015, 1019, 1011, 1018][(k // 2) % 4]              # for every element the narrower field comes first once
+        y = rng.choice([2, 4, 5, 9])
+        ids = [208000 + y, st, 208000, st, 1001] if k % 2 == 0 else [st, 208000 + y, st, 208000, 1001]
+        # first in the list: encoded before any other message of this run has touched these elements
+        cases.insert(k, {'ids': ids, 'version': 33, 'edition': 4, 'nsub': rng.choice([1, 2]), 'compressed': False, 'forced': '-',
+                         'seed': rng.randrange(1, 2 ** 32), 'maxrep': 3, 'features': {'missing-string-two-widths': 1}, 'shared': False})
     P.attach_templates(cases)
     P.run_gen(cases)
+    for c in cases:
+        if c['features'].get('missing-string-two-widths') and c.get('val_toks'):
+            for j, toks in enumerate(c['val_toks']):
+                for i, t in enumerate(toks):
+                    if t[0] == 'y' or (t == 'n' and i < len(toks) - 1):
+                        toks[i] = 'n'
+                        c['py_vals'][j][i] = None
+            c['missing_strings'] = True
     import random
     for c in cases:
+        if c.get('missing_strings'):
+            continue
         if c.get('val_toks') and (c['features'].get('wide-character-field') or rng.random() < 0.3):
             # derived from the case's own seed so that a replay varies the same strings the same way
             if P.vary_string_lengths(c, random.Random(c['seed'] ^ 0x5A5A5A)):
@@ -129,7 +148,7 @@ def run(ctx):
         ctx.count((tuple(c['ids']), c['seed'], c['edition']), nontriv)
         case = {'ids': c['ids'], 'seed': c['seed'], 'forced': c['forced'], 'nsub': c['nsub'],
                 'version': c['version'], 'edition': c['edition'], 'compressed': c['compressed'],
-                'vary_strings': bool(c.get('vary_strings'))}
+                'vary_strings': bool(c.get('vary_strings')), 'missing_strings': bool(c.get('missing_strings'))}
         eq, detail = P.compare_encode(c)
         if c['impl_enc'][0] == 'ok':
             # section 3: the descriptor list is packed F (2 bits) X (6) Y (8), 16 bits each, nothing dropped
@@ -206,6 +225,12 @@ def replay(ctx, rec):
               'compressed': c.get('compressed', False), 'forced': c['forced'], 'seed': c['seed'], 'maxrep': 3, 'features': {},
               'shared': c.get('compressed', False)}]
     P.attach_templates(cases); P.run_gen(cases)
+    if c.get('missing_strings'):
+        for j, toks in enumerate(cases[0]['val_toks']):
+            for i, t in enumerate(toks):
+                if t[0] == 'y':
+                    toks[i] = 'n'
+                    cases[0]['py_vals'][j][i] = None
     if c.get('vary_strings'):
         import random
         P.vary_string_lengths(cases[0], random.Random(c['seed'] ^ 0x5A5A5A))
